@@ -1273,6 +1273,15 @@ class Interp(object):
             return a is b
         if isinstance(a, bool) and isinstance(b, bool):
             return a == b
+        if (is_symstr(a) or isinstance(a, str)) and (is_symstr(b) or isinstance(b, str)):
+            # identity of strings: the same value object is identical to itself; two equal strings may or may not be the
+            # same object (interning is an implementation detail), different strings never are
+            if a is b or (ops.is_sym(a) and ops.is_sym(b) and a.eq(b)):
+                return True
+            self.ctx.assumed.add("A2:`is` between strings: identical implies equal; equal strings need not be identical")
+            same = self.ctx.bool("str.is", record=False)
+            self.ctx.assume(z3.Implies(same, ops.lift(a) == ops.lift(b)), definitional=True)
+            return same
         raise Unsupported("'is' on %r, %r" % (a, b), node)
 
     def equals(self, a, b, node):
